@@ -445,3 +445,31 @@ func c01CGGMP21AuxRounds[P curves.Point[P, B, S], B algebra.PrimeFieldElement[B]
 	}
 	return out, nil
 }
+
+// C01CGGMP21Partials runs the signing runners honestly (default schedule) and returns every cosigner's partial signature.
+func C01CGGMP21Partials[P curves.Point[P, B, S], B algebra.PrimeFieldElement[B], S algebra.PrimeFieldElement[S]](suite *ecdsa.Suite[P, B, S], shards map[ID]*cggmp21.Shard[P, B, S], quorum []ID, message []byte, seed int64, label string) (map[ID]*cggmp21.PartialSignature[P, B, S], map[ID]cgsigning.PartialSignatureAggregator[P, B, S], error) {
+	quorum = Sorted(quorum)
+	ctxs := Contexts(quorum, KeySeed(seed), "c01/cggmp21/"+label)
+	res, info := schednet.RunAll(zeroChooserC01{}, schednet.New(quorum...), quorum, func(ctx context.Context, id ID, rt *network.Router) (*cgsigning.SignResult[P, B, S], error) {
+		r, err := cgsigning.NewRunner(ctxs[id], suite, shards[id], message, det.New(seed, fmt.Sprintf("c01/cggmp21/%s/%d", label, id)))
+		if err != nil {
+			return nil, err
+		}
+		return r.Run(ctx, rt, nil)
+	})
+	out := c01NewOut[*ecdsa.Signature[S]]()
+	ok := c01Collect(out, quorum, res, info)
+	if len(ok) != len(quorum) {
+		return nil, nil, fmt.Errorf("honest CGGMP21 run failed: %v", out.Errs)
+	}
+	ps := map[ID]*cggmp21.PartialSignature[P, B, S]{}
+	aggs := map[ID]cgsigning.PartialSignatureAggregator[P, B, S]{}
+	for id, r := range ok {
+		if r == nil || r.PartialSignature() == nil || r.PartialSignatureCosigningAggregator() == nil {
+			return nil, nil, fmt.Errorf("party %d returned an incomplete sign result", id)
+		}
+		ps[id] = r.PartialSignature()
+		aggs[id] = r.PartialSignatureCosigningAggregator()
+	}
+	return ps, aggs, nil
+}
